@@ -23,13 +23,15 @@ REQUIRED_PROBES = {"quick": ("len_multiple_of_244", "len_0", "multi_block", "int
                                 "corrupt_header", "corrupt_data", "corrupt_checksum", "block_number_ge_16384")}
 EVIDENCE = {
     "level": "fault_enumeration",
-    "rule": ("message runs: seeded body lengths (0, 1, 243..245, 487..489, k*244, random <= 100 KiB; thorough: 32767 "
-             "blocks), header fields over their ranges, 2-3 concurrent senders so that blocks of different transactions "
-             "interleave on the line, inbound blocks interleaved by the reference peer, seeded chunking of the line; "
-             "corruption runs: for canonical blocks with 0, 1 and 244 data bytes EVERY byte position of header, data and "
-             "checksum x masks {0x01, 0x80, 0xFF, 0x40} is enumerated (index-driven, complete in the quick tier); "
-             "non-trivial = a multi-block message, interleaving or a corruption was exercised; distinct = distinct "
-             "(kind, length classes, #threads, chunk mode) or (block size, position, mask) tuples"),
+    "rule": ("message runs: seeded body lengths (0, 1, 243..245, 487..489, k*244, random <= 100 KiB; thorough: "
+             "32767 blocks), header fields over their ranges, 2-3 concurrent senders so that blocks of different "
+             "transactions interleave on the line, inbound blocks interleaved by the reference peer, seeded "
+             "chunking of the line, a data/checksum byte of one outbound block altered on the line in 30 % of the "
+             "runs; corruption runs: for canonical blocks with 0, 1 and 244 data bytes EVERY byte position of "
+             "header, data and checksum x masks {0x01, 0x80, 0xFF, 0x40} is enumerated (index-driven, complete in "
+             "the quick tier); non-trivial = a multi-block message, interleaving or a corruption was exercised; "
+             "distinct = distinct (kind, length classes, #threads, chunk mode) or (block size, position, mask) "
+             "tuples"),
     "real": ["secsgem.secsi.SecsIMessage/SecsIBlock/SecsIHeader", "secsgem.common.Message._split_blocks",
              "secsgem.common.Protocol._add_message_block/send_message", "secsgem.secsi.SecsIProtocol",
              "secsgem.common.SerialConnection"],
